@@ -190,7 +190,7 @@ def run(ctx, replay=None):
     edits = sum(1 for c in cases if c['kind'] == 'edit')
     for need in ('unknown-label', 'redef-label', 'unused-label', 'unused-argument', 'pointless'):
         if not kinds.get(need):
-            raise tlc.MachineryError(f'vacuity: no {need} warning in the sample')
+            ctx.vacuous(f'vacuity: no {need} warning in the sample')
     ctx.notes.update({'alphabet_models': nalpha, 'warnings_by_kind': kinds, 'edits_run': edits})
     return F.finish(ctx, rule='every statement list <= %d over the jump alphabet, random jump models with duplicate labels / dangling jumps / '
                     'duplicate functions and arguments, parsed random structured programs, the shipped scripts; for every actionable '
